@@ -20,7 +20,7 @@ EXPLANATION = (
     "P[i,j]*perm(W) == W[i,j]*perm(W minus row i, column j) (perm = Leibniz expansion, the property's own oracle), P == 0 on busy rows/columns, and the code's own allclose asserts as exact "
     "row/column-sum identities. This is complete per shape and bounded in shape, hence 'other'."
 )
-BOUNDS = {"quick": "all shapes with N<=2 plus-ensembles, every 5th shape with N=3", "thorough": "all shapes with N<=3, every 3rd with N=4 (0/1 weights: all of those; symbolic wire-fencing / mixed weights: only states with at least one busy ensemble -- the fully idle N=4 state needs the 5x5 symbolic permanent identity, beyond the solver: not decided)"}
+BOUNDS = {"quick": "all shapes with N<=2 plus-ensembles, every 5th shape with N=3", "thorough": "all shapes with N<=3, every 3rd with N=4 (0/1 weights: all of those; symbolic wire-fencing / mixed weights: only states with at most three idle rows -- larger idle blocks need 4x4 / 5x5 symbolic permanent identities, beyond the solver within minutes: not decided)"}
 
 
 def _has_matching(rows, idle):
@@ -60,9 +60,9 @@ def jobs(tier):
     for N, stride in plan:
         for k, (kind, rows, locks) in enumerate(shapes(N)):
             if k % stride == 0:
-                if N >= 4 and kind != "sh" and sum(1 for x in locks if not x) >= 5:
-                    # the fully idle N = 4 state ([0-] and all four plus ensembles idle) with symbolic wire-fencing weights needs the 5x5 symbolic permanent identity:
-                    # beyond the solver (minutes, > 10 GB per shape) -- NOT decided, stated in BOUNDS
+                if N >= 4 and kind != "sh" and sum(1 for x in locks if not x) >= 4:
+                    # N = 4 states with four or five idle rows and symbolic wire-fencing weights need 4x4 / 5x5 symbolic permanent identities:
+                    # up to minutes and > 10 GB per shape (profiled: timeouts at 120 s) -- NOT decided, stated in BOUNDS
                     continue
                 all_shapes.append((N, kind, rows, locks))
     nchunks = 28
@@ -201,6 +201,16 @@ def run_chunk(spec, tier, seed):
                 result, detail = "unknown", f"division guard undecided: {ex.undecided_guards[0]}"
             for gname, g in goals:
                 n_entries += 1
+                gs = z3.simplify(g)
+                if z3.is_false(gs) and z3.is_eq(g):
+                    # a ground goal: with 0/1 weights the real code computes in binary floating point (np.where turns the matrix
+                    # numeric), so 1/3 or 1/6 come back rounded.  A-REAL ("floats as reals") does not apply to concrete numbers:
+                    # compare to 1e-12 relative instead of exactly (symbolic shapes stay exact identities)
+                    lhs, rhs = z3.simplify(g.arg(0)), z3.simplify(g.arg(1))
+                    if z3.is_rational_value(lhs) and z3.is_rational_value(rhs):
+                        a_, b_ = lhs.as_fraction(), rhs.as_fraction()
+                        if abs(a_ - b_) <= max(1, abs(b_)) / 10**12:
+                            continue
                 r, model = prove(ex.pc, g)
                 if r == "sat":
                     result, detail = "sat", gname
